@@ -78,6 +78,16 @@ def families(tier):
         for o in (['A', 'B'], ['B', 'A']):
             out.append(dict(prop='C03', family='c03.parallel', id=f'c03.parallel/{first}-{second}-{place}-o{"".join(o)}', cfg=cfg, params=dict(leaf=first),
                             scn=dict(buses={'A': dict(parallel=(place == 'root')), 'B': dict(parallel=True)}, order=o, handlers=hs, main=[('disp', 'A', 'P', 'await')], actors=[stall_actor], forwards=[], settle=2.0)))
+    # bounded history: a chain of 3-4 nested fire-and-forget dispatches whose ancestors are evicted from a tiny history before the leaf finishes
+    for hist, depth, fill in itertools.product((1, 2), (3, 4), (0, 1)):
+        chain = ['P', 'C', 'G', 'Q'][:depth]
+        hs = []
+        for i, t in enumerate(chain):
+            prog = ([('disp', 'A', chain[i + 1], 'ff')] + [('disp', 'A', f'Z{i}{j}', 'ff') for j in range(hist * fill)] if i + 1 < depth else []) + [('pause',)]
+            hs.append(dict(bus='A', pat=t, name='h' + t, prog=prog))
+        hs.append(dict(bus='A', pat='X', name='hx', prog=[('ret', 0)]))
+        out.append(dict(prop='C03', family='c03.bounded_history', id=f'c03.bounded_history/h{hist}-d{depth}-f{fill}', cfg=cfg, params=dict(leaf='chain'),
+                        scn=dict(buses={'A': dict(hist=hist)}, order=['A'], handlers=hs, main=[('disp', 'A', 'P', 'await')], actors=[stall_actor], forwards=[], settle=2.0)))
     # self-recursion: hr(R d) dispatches R(d+1) while d < maxdepth
     for maxd, mode, extra in itertools.product((1, 2, 3, 4), ('ff', 'await'), (False, True)):
         hs = [dict(bus='A', pat='R', name='hr', prog=[('recurse', 'A', mode, maxd)] + ([('pause',)] if extra else []))]
